@@ -34,6 +34,8 @@ type C08Scenario struct {
 	TZs []string `json:"tzs,omitempty"`
 	// LowFD[i]: the processes of schedule i+1 run under a descriptor limit of 32
 	LowFD []bool `json:"low_fd,omitempty"`
+	// Par[i]: the processes of schedule i+1 run with GOMAXPROCS=8
+	Par []bool `json:"par,omitempty"`
 	// CountTop+1: the row limit given to `coca count -t`
 	CountTop int    `json:"count_top,omitempty"`
 	Remove   string `json:"remove,omitempty"` // -r for api / call / rcall: package names to strip, possibly one a prefix of another
@@ -58,6 +60,7 @@ func (C08) Generate(t *tape.Tape, tier string) interface{} {
 	if thorough {
 		o.MaxFiles = 9
 	}
+	o.WideLine = t.Bool(1, 6)
 	p := gen.GenProject(t, o)
 	sc := &C08Scenario{}
 	var pkgs []string
@@ -104,9 +107,19 @@ func (C08) Generate(t *tape.Tape, tier string) interface{} {
 	if len(methods) > 0 {
 		sc.Root = methods[t.Pick(len(methods))]
 		sc.Target = methods[t.Pick(len(methods))]
+		wide := ""
+		for _, f := range p.Files {
+			if f.Name == "WideTable" {
+				wide = f.Pkg + ".WideTable."
+			}
+		}
 		if hubTarget != "" {
 			sc.Target = hubTarget
 			sc.Root = "hub.Hub.fanOut"
+		} else if wide != "" && t.Bool(1, 2) {
+			// the overloaded methods of the one-line class: which overload the graph follows is settled by
+			// the source order of the two, whatever their columns
+			sc.Root = wide + []string{"a2", "a3"}[t.Pick(2)]
 		} else if t.Bool(1, 5) {
 			// a short form (Class.method or the bare method name) that several declared methods end in:
 			// it is nobody's full name, so every run must treat it alike
@@ -197,6 +210,7 @@ func (C08) Generate(t *tape.Tape, tier string) interface{} {
 		sc.Schedules = append(sc.Schedules, s)
 		sc.TZs = append(sc.TZs, []string{"", "", "Asia/Tokyo", "America/Los_Angeles", "Pacific/Kiritimati"}[t.Pick(5)])
 		sc.LowFD = append(sc.LowFD, t.Bool(1, 4))
+		sc.Par = append(sc.Par, t.Bool(1, 4))
 		sc.CountTop = t.Pick(5)
 	}
 	return sc
@@ -766,6 +780,10 @@ func (C08) Run(ctx *sim.RunCtx, data json.RawMessage) (*sim.Outcome, error) {
 			site := ctx.Env.Sites[int(s.Seed%uint64(len(ctx.Env.Sites)))]
 			s.Site = strings.TrimPrefix(site, "dep:")
 		}
+		par := si > 0 && si-1 < len(sc.Par) && sc.Par[si-1]
+		if par {
+			out.Faults["real-parallelism"]++
+		}
 		maxFD := 0
 		if si > 0 && si-1 < len(sc.LowFD) && sc.LowFD[si-1] {
 			maxFD = 32
@@ -782,14 +800,14 @@ func (C08) Run(ctx *sim.RunCtx, data json.RawMessage) (*sim.Outcome, error) {
 		for _, f := range sc.Files {
 			p := filepath.Join(w, "src", filepath.FromSlash(f.Path))
 			os.MkdirAll(filepath.Dir(p), 0755)
-			if err := os.WriteFile(p, []byte(f.Text), 0644); err != nil {
+			if err := os.WriteFile(p, []byte(materialiseLegacy(f.Text)), 0644); err != nil {
 				return nil, sim.Harness("%v", err)
 			}
 		}
 		for _, f := range sc.Tree {
 			p := filepath.Join(w, "tree", filepath.FromSlash(f.Path))
 			os.MkdirAll(filepath.Dir(p), 0755)
-			if err := os.WriteFile(p, []byte(f.Text), 0644); err != nil {
+			if err := os.WriteFile(p, []byte(materialiseLegacy(f.Text)), 0644); err != nil {
 				return nil, sim.Harness("%v", err)
 			}
 		}
@@ -803,7 +821,13 @@ func (C08) Run(ctx *sim.RunCtx, data json.RawMessage) (*sim.Outcome, error) {
 		for _, c := range cmds {
 			saved := ctx.ProcTimeout
 			ctx.ProcTimeout = 60 * time.Second
-			res, err := ctx.Run(&sim.Proc{Schedule: s, Cwd: w, TZ: tz, MaxOpenFiles: maxFD, Ops: []sim.Op{{Op: "cli", Args: map[string]interface{}{"args": c.args}}}})
+			cfd, cpar := maxFD, par
+			if c.name == "cloc" {
+				// the line counter (boyter/scc) runs a pool of reader goroutines sized by the machine: the
+				// resource faults aimed at coca's own code are not applied to it
+				cfd, cpar = 0, false
+			}
+			res, err := ctx.Run(&sim.Proc{Schedule: s, Cwd: w, TZ: tz, MaxOpenFiles: cfd, Parallel: cpar, Ops: []sim.Op{{Op: "cli", Args: map[string]interface{}{"args": c.args}}}})
 			ctx.ProcTimeout = saved
 			if err != nil {
 				return nil, err
@@ -890,7 +914,7 @@ func (C08) Run(ctx *sim.RunCtx, data json.RawMessage) (*sim.Outcome, error) {
 			for _, f := range sc.Files {
 				p := filepath.Join(wc, "src", filepath.FromSlash(f.Path))
 				os.MkdirAll(filepath.Dir(p), 0755)
-				os.WriteFile(p, []byte(f.Text), 0644)
+				os.WriteFile(p, []byte(materialiseLegacy(f.Text)), 0644)
 			}
 			for _, fn := range []string{"deps.json", "identify.json"} {
 				if b, err := os.ReadFile(filepath.Join(w, "coca_reporter", fn)); err == nil {
@@ -914,7 +938,7 @@ func (C08) Run(ctx *sim.RunCtx, data json.RawMessage) (*sim.Outcome, error) {
 		if repoDir != "" {
 			os.RemoveAll(filepath.Join(repoDir, "coca_reporter"))
 			for _, gc := range [][2]string{{"git-basic", "-b"}, {"git-team", "-t"}, {"git-top", "-o"}, {"git-summary", "-m"}, {"git-team-cut", "-t -f -s 3"}, {"git-top-cut", "-o -f -s 2"}} {
-				resg, err := ctx.Run(&sim.Proc{Schedule: s, Cwd: repoDir, TZ: tz, MaxOpenFiles: maxFD, Ops: []sim.Op{{Op: "cli", Args: map[string]interface{}{"args": append([]string{"git"}, strings.Fields(gc[1])...), "read": []string{"coca_reporter/commits.json"}}}}})
+				resg, err := ctx.Run(&sim.Proc{Schedule: s, Cwd: repoDir, TZ: tz, MaxOpenFiles: maxFD, Parallel: par, Ops: []sim.Op{{Op: "cli", Args: map[string]interface{}{"args": append([]string{"git"}, strings.Fields(gc[1])...), "read": []string{"coca_reporter/commits.json"}}}}})
 				if err != nil {
 					return nil, err
 				}
@@ -945,7 +969,7 @@ func (C08) Run(ctx *sim.RunCtx, data json.RawMessage) (*sim.Outcome, error) {
 		}
 		// library-style analysis: identifier pass, then the full pass with the project-wide identifier set
 		{
-			res, err := ctx.Run(&sim.Proc{Schedule: s, Cwd: w, TZ: tz, MaxOpenFiles: maxFD, Ops: []sim.Op{{Op: "identDir", Args: map[string]interface{}{"dir": "src"}}}})
+			res, err := ctx.Run(&sim.Proc{Schedule: s, Cwd: w, TZ: tz, MaxOpenFiles: maxFD, Parallel: par, Ops: []sim.Op{{Op: "identDir", Args: map[string]interface{}{"dir": "src"}}}})
 			if err != nil {
 				return nil, err
 			}
@@ -953,7 +977,7 @@ func (C08) Run(ctx *sim.RunCtx, data json.RawMessage) (*sim.Outcome, error) {
 			if res.Completed(0) && res.Records[0].OK {
 				identFile := filepath.Join(w, "lib-ident.json")
 				os.WriteFile(identFile, res.Records[0].Result, 0644)
-				res2, err := ctx.Run(&sim.Proc{Schedule: s, Cwd: w, TZ: tz, MaxOpenFiles: maxFD, Ops: []sim.Op{{Op: "fullDir", Args: map[string]interface{}{"dir": "src", "ident": identFile}}}})
+				res2, err := ctx.Run(&sim.Proc{Schedule: s, Cwd: w, TZ: tz, MaxOpenFiles: maxFD, Parallel: par, Ops: []sim.Op{{Op: "fullDir", Args: map[string]interface{}{"dir": "src", "ident": identFile}}}})
 				if err != nil {
 					return nil, err
 				}
@@ -975,7 +999,7 @@ func (C08) Run(ctx *sim.RunCtx, data json.RawMessage) (*sim.Outcome, error) {
 		if sc.GoFile != "" {
 			goPath := filepath.Join(w, "demo.go")
 			os.WriteFile(goPath, []byte(sc.GoFile), 0644)
-			resg, err := ctx.Run(&sim.Proc{Schedule: s, Cwd: w, TZ: tz, MaxOpenFiles: maxFD, Ops: []sim.Op{{Op: "goIdent", Args: map[string]interface{}{"file": "demo.go"}}}})
+			resg, err := ctx.Run(&sim.Proc{Schedule: s, Cwd: w, TZ: tz, MaxOpenFiles: maxFD, Parallel: par, Ops: []sim.Op{{Op: "goIdent", Args: map[string]interface{}{"file": "demo.go"}}}})
 			if err != nil {
 				return nil, err
 			}
@@ -994,7 +1018,7 @@ func (C08) Run(ctx *sim.RunCtx, data json.RawMessage) (*sim.Outcome, error) {
 		// one process; "the same input gives the same output on every run" also holds for the third parse
 		gitLog2 := filepath.Join(w, "gitlog2.txt")
 		os.WriteFile(gitLog2, []byte(sc.GitLog2), 0644)
-		res, err := ctx.Run(&sim.Proc{Schedule: s, Cwd: w, TZ: tz, MaxOpenFiles: maxFD, Ops: []sim.Op{{Op: "git", Args: map[string]interface{}{"logs": []string{gitLog, gitLog2, gitLog}}}}})
+		res, err := ctx.Run(&sim.Proc{Schedule: s, Cwd: w, TZ: tz, MaxOpenFiles: maxFD, Parallel: par, Ops: []sim.Op{{Op: "git", Args: map[string]interface{}{"logs": []string{gitLog, gitLog2, gitLog}}}}})
 		if err != nil {
 			return nil, err
 		}
